@@ -51,6 +51,10 @@ func runC15(c *Ctx, r *Report) {
 	checkTelnetSingleDial(c, r, "C15/single-dial")
 	importFoundation(c, r, "C15", "driver-options")
 	importFoundation(c, r, "C15", "transport-pipe")
+	r.Rule("C15/negotiation-ends", "(restated from C05/loops-cancellable) the negotiation loop ends through a socket read deadline armed for every read: the opening phase is over when the server stops negotiating, however many bytes it sent", 1)
+	importObligationsIf(r, func(sub *Report) { checkLoopsCancellable(c, sub) }, "C05/loops-cancellable", "C15/negotiation-ends", func(construct string) bool {
+		return strings.Contains(construct, "handleControlChars")
+	})
 	r.Rule("C15/automaton", "every cell of the negotiation automaton (state x byte class [x verb]) has exactly the specified effects", 40)
 	r.Rule("C15/feed-all", "the negotiation loop hands every byte read to the handler, threads the control buffer, and aborts on a handler error", 3)
 	r.Rule("C15/loop-continues", "after a byte was handled without error the negotiation loop reads the next byte: it ends only on the read timeout or an error", 1)
